@@ -681,3 +681,25 @@ Proof.
   unfold refresh, Refresh_list in *. apply in_map_iff in Hi. destruct Hi as (y & <- & Hy).
   apply in_map. rewrite <- Hmods. exact (modmap_values_incl mgr d Emap y Hy).
 Qed.
+
+(* ---------- repeating a call ------------------------------------------------------------------------- *)
+
+(* after vector.assemble(...) — whatever its outcome — the caller's objects read as the arguments
+   did: calling again, or calling with corrected modules after a failure, is calling on the same
+   values (and run_assemble is a function of them) *)
+Theorem run_assemble_repeat fuel vector m ms kw :
+  NoDup (map ent_id (vector :: m :: ms)) ->
+  let h1 := snd (run_assemble fuel vector (m :: ms) kw) in
+  refresh h1 vector = vector /\ refresh h1 (m :: ms) = m :: ms.
+Proof.
+  intros Hnd h1.
+  assert (Hget : forall e, In e (vector :: m :: ms) -> heap_get (heap_of (vector :: m :: ms)) (ent_id e) = Some (ent_record e))
+    by (apply heap_of_get; exact Hnd).
+  assert (H1 : forall e, In e (vector :: m :: ms) -> heap_get h1 (ent_id e) = Some (ent_record e)).
+  { intros e He. subst h1. unfold run_assemble.
+    pose proof (vector_assemble_restores fuel vector m ms kw (ent_id e) (ent_record e) (Hget e He)) as Hr.
+    destruct (AbstractVector_assemble fuel vector m ms kw (heap_of (vector :: m :: ms))) as [[[l ws]|x] h]; exact Hr. }
+  split.
+  - apply refresh_same. apply H1. now left.
+  - apply refresh_list_same. intros e He. apply H1. now right.
+Qed.
